@@ -206,7 +206,10 @@ def aggregates(f1: bool, f2: bool, f3: bool, g1: bool, g2: bool, g3: bool, inc: 
     return (dict(v.get(tk[0]) or {}) if tk else {}, dict(v.get("cn") or {}), dict(v.get("st") or {}), dict(v.get("fi") or {}), v.get("su"), v.get("ct"))
 
 
-def every_oracle(f1, f2, f3, f4):
+EVERY_WRAP = {"plain": "every.e(#cat, 2)", "not": "not(every.e(#cat, 2))", "or": "or(every.e(#cat, 2), no())", "and": "and(every.e(#cat, 2), yes())"}
+
+
+def every_oracle(f1, f2, f3, f4, wrap="plain"):
     fs = [f1, f2, f3, f4]
     seen = {}
     votes = {}
@@ -218,7 +221,7 @@ def every_oracle(f1, f2, f3, f4):
         seen[c] = seen.get(c, 0) + 1
         hit = seen[c] % 2 == 0
         votes[hit] = votes.get(hit, 0) + 1
-        if hit:
+        if hit != (wrap == "not"):
             ret.append(i + 1)
     return (ret, seen)
 
@@ -226,15 +229,16 @@ def every_oracle(f1, f2, f3, f4):
 @ob(
     "C03",
     "O4-every",
-    post="_ == every_oracle(f1, f2, f3, f4)",
-    bound="4 data lines, category by symbolic bools; every.e(#cat, 2): returned lines and the value counts kept under the qualifier name "
+    post="_ == every_oracle(f1, f2, f3, f4, wrap)",
+    bound="4 data lines, category by symbolic bools; every.e(#cat, 2) alone and as the argument of not()/or()/and() (shards): returned lines "
+    "and the value counts kept under the qualifier name - every line is counted once however often the enclosing function asks "
     "(docs/functions/every.md also describes a second vote-count variable which this version does not keep: not compared)",
-    encodes=ENC_RUN + ["csvpath/matching/functions/counting/every.py"],
-    tiers={"quick": {"timeout": 600}},
+    encodes=ENC_RUN + ["csvpath/matching/functions/counting/every.py", "csvpath/matching/functions/boolean/notf.py", "csvpath/matching/functions/boolean/orf.py", "csvpath/matching/functions/boolean/andf.py"],
+    tiers={"quick": {"timeout": 600, "shards": product(wrap=list(EVERY_WRAP))}},
 )
-def every_run(f1: bool, f2: bool, f3: bool, f4: bool) -> Tuple[List[int], Dict[str, int]]:
+def every_run(f1: bool, f2: bool, f3: bool, f4: bool, wrap: str = "plain") -> Tuple[List[int], Dict[str, int]]:
     recs = [["cat"], [_cat(f1)], [_cat(f2)], [_cat(f3)], [_cat(f4)]]
-    p, pr = fresh('$SYM[1*][ every.e(#cat, 2) ]', recs)
+    p, pr = fresh('$SYM[1*][ %s ]' % EVERY_WRAP[wrap], recs)
     got = [p.line_monitor.physical_line_number for _ in p.next()]
     v = p.variables
     return (got, dict(v.get("e") or {}))
